@@ -19,11 +19,7 @@ for b in $IDS; do
     git -C /repo worktree add -q "$T/w" HEAD || exit 2
     if ! (cd "$T/w" && git apply "$OLDPWD/$p" 2>/dev/null); then echo "SKIPPED $b/$n: no longer applies"; continue; fi
     props=$(python3 tools/benign_props.py $p)
-    out=""
-    for pr in $props; do
-      o=$(KBV_WORK="$T/work" bin/kbv check -prop $pr -repo "$T/w" -no-evidence -no-replay 2>&1 | grep -E '^(FAILED|TOOL)' | cut -c1-160 | sed "s/^/    $pr: /")
-      [ -n "$o" ] && out="$out$o"$'\n'
-    done
-    if [ -z "$out" ]; then echo "QUIET $b/$n ($props)"; else echo "ALARM $b/$n ($props)"; printf "%s" "$out"; fi
+    out=$(echo $props | tr ' ' '\n' | xargs -P "${BENIGN_JOBS:-4}" -I{} sh -c "KBV_WORK='$T/work' bin/kbv check -prop {} -repo '$T/w' -no-evidence -no-replay 2>&1 | grep -E '^(FAILED|TOOL)' | cut -c1-160 | sed 's/^/    {}: /'")
+    if [ -z "$out" ]; then echo "QUIET $b/$n ($props)"; else echo "ALARM $b/$n ($props)"; printf "%s\n" "$out"; fi
   done
 done
